@@ -78,7 +78,7 @@ def _history(rng, npop, rounds):
 
 
 def generate(tier, rng):
-  reps = {'quick': 3, 'thorough': 8, 'search': 12}[tier]
+  reps = {'quick': 3, 'thorough': 16, 'search': 16}[tier]
   for name in ALGS + AGGS:
     for hp in _hp_grid(name, tier, rng):
       for i in range(reps):
